@@ -146,13 +146,17 @@ def main(run):
         defaults = {f: (rnd.choice([0, 0.0, False, "", None]) if rnd.random() < 0.4 else -(j + 1)) for j, f in enumerate(names)}
         strat_arg = rnd.choice([strategy, "".join(list(strategy)), str(__import__("numpy").str_(strategy))])   # equal strings, not the literal object
         imp = DefaultImputer(model, dict(defaults)) if kind == "default" else MarginalImputer(model, strat_arg, st)
-        x = {f: 900000 + j for j, f in enumerate(names)}
-        x["extra"] = 7
+        x_full = {f: 900000 + j for j, f in enumerate(names)}
+        x_full["extra"] = 7
+        x_full["extra2"] = 8
+        x_small = {f: 800000 + j for j, f in enumerate(names)}        # a later instance with FEWER keys (sparse / evolving dicts)
+        x = x_full
         if subsets is None:
             subsets = [c for r in range(d + 1) for c in itertools.combinations(names, r)]
             if len(subsets) > 16:
                 subsets = [(), tuple(names)] + rnd.sample(subsets, 14)
-        for sub in subsets:
+        for si, sub in enumerate(subsets):
+            x = x_small if si % 3 == 2 else x_full      # the same imputer object serves instances with different key sets
             ids0, rows0, ys0 = snap_storage(st)
             x0 = dict(x)
             container = as_container(cont, sub)
@@ -162,7 +166,7 @@ def main(run):
 
             def scen(rng=None):
                 clock.reset()
-                res = imp.impute(container, x, n)
+                res = imp.impute(container, x, n) if n % 2 else imp.impute(feature_subset=container, x_i=x, n_samples=n)
                 inputs = [e[1] for e in clock.log if e[0] == "model"]
                 return res, inputs
             try:
